@@ -35,7 +35,7 @@ COMPONENTS = {'real': ['yldprolog.engine (several YP instances in one process)',
               'stub': ['scheduler: which engine / generator / thread proceeds next', 'native predicates with tagged answers'],
               'oracle': ['self-referential: the same per-engine history executed solo in a pristine forked process']}
 REQUIRED_PROBES = ('mode_back2back', 'mode_ops', 'mode_threads', 'mode_same_engine', 'preemptions_fired', 'two_engines_with_suspended_generators',
-                   'clear_while_other_engine_suspended', 'compile_preempted', 'same_engine_interleaved_steps')
+                   'clear_while_other_engine_suspended', 'compile_preempted', 'same_engine_interleaved_steps', 'same_engine_nonground_dynamic_facts')
 
 SNIPS = [
     "p(s1a_{t}).\np(s1b_{t}).\nq(X,Y) :- p(X), p(Y).\n",
@@ -89,9 +89,18 @@ def gen(seed, tier):
         world['dynamic'] = []
         world['prebind'] = []
         ntasks = rng.randrange(2, 5)
-        tasks = [rng.choice([['p', 2], ['h1', 2], ['h2', 1], ['s', 2], ['q', 1], ['t', 3], ['u', 1]]) for _ in range(ntasks)]
+        # dynamic facts, some with fact-local variables, next to the compiled program
+        dyn = []
+        for _ in range(rng.randrange(0, 5)):
+            n, a = rng.choice([('s', 2), ('q', 1), ('d', 2), ('d', 1)])
+            dyn.append([n, [rng.choice([['v', 0], ['v', 1], ['a', 'a'], ['a', 'b'], ['i', 1], ['f', 'f', [['v', 0]]]]) for _ in range(a)]])
+        tasks = []
+        for _ in range(ntasks):
+            n, a = rng.choice([['p', 2], ['h1', 2], ['h2', 1], ['s', 2], ['q', 1], ['t', 3], ['u', 1], ['d', 2], ['d', 1], ['d', 2]])
+            # arguments: the task's own fresh variables, or ground terms (tasks never share variables)
+            tasks.append([n, a, [(['v', j] if rng.random() < 0.6 else rng.choice([['a', 'a'], ['a', 'b'], ['a', 'c'], ['i', 1], ['i', 2]])) for j in range(a)]])
         steps = [[rng.randrange(ntasks), rng.choice(['next'] * 8 + ['close', 'drop'])] for _ in range(rng.randrange(4, 40))]
-        return {'mode': mode, 'world': world, 'tasks': tasks, 'steps': steps}
+        return {'mode': mode, 'world': world, 'dynfacts': dyn, 'tasks': tasks, 'steps': steps}
     ne = rng.choice((2, 2, 3))
     hs = [gen_history(rng, rng.randrange(5, 26)) for _ in range(ne)]
     return {'mode': mode, 'histories': hs, 'sched_seed': rng.randrange(1 << 30), 'switch_p': rng.choice((0.005, 0.02, 0.05, 0.2)), 'schedule': None}
@@ -325,10 +334,17 @@ def execute_same_engine(plan):
     CAP = 12
 
     def observe(vs):
-        return TM.canon([TM.observe(v, {}) for v in vs])
+        return TM.observe_canon(vs)
+
+    for n_, row in plan.get('dynfacts', []):
+        vm = {}
+        yp.assert_fact(yp.atom(n_), [TM.build(yp, TM.T(x), vm) for x in row])
+    if any(not TM.is_ground(TM.T(x)) for _, row in plan.get('dynfacts', []) for x in row):
+        log.count('same_engine_nonground_dynamic_facts')
 
     def mk(t):
-        vs = [yp.variable() for _ in range(t[1])]
+        vm = {}
+        vs = [TM.build(yp, TM.T(x), vm) for x in t[2]] if len(t) > 2 else [yp.variable() for _ in range(t[1])]
         return GenTask(yp.query(t[0], vs)), vs
     try:
         solo = []
